@@ -18,7 +18,7 @@ def translate(dst):
         raise RuntimeError("pcal failed:\n" + r.stdout + r.stderr)
     p = os.path.join(dst, "MSM.tla")
     s = open(p).read()
-    s = s.replace("Init == (* Global variables *)\n        /\\ ", "Init == (* Global variables *)\n        /\\ TLCSet(1, 0) /\\ TLCSet(2, {})\n        /\\ ", 1)
+    s = s.replace("Init == (* Global variables *)\n        /\\ ", "Init == (* Global variables *)\n        /\\ TLCSet(1, 0) /\\ TLCSet(2, {}) /\\ TLCSet(3, 0)\n        /\\ ", 1)
     assert "TLCSet(1, 0)" in s
     open(p, "w").write(s)
     m = re.search(r"^vars == <<(.*?)>>", s, re.S | re.M)
@@ -35,20 +35,25 @@ CFGS = {
 }
 
 def write_mc(dst, defname, cfg, mode, allvars, maxcalls=3, budget=0, ninst=1, apis=("start", "pe"),
-             invariants=(), extra_defs="", emit=False, name=None):
+             invariants=(), extra_defs="", emit=False, name=None, dirops=("throw", "pe", "enq"), direvs=None, constraint=None, trace_invs=(), percall=True):
     name = name or ("MC_%s_%s_%s" % (defname, cfg, mode))
     view = [v for v in allvars if v != "path"]
     mod = ["---- MODULE %s ----" % name, "EXTENDS MSM, Def_%s, Props" % defname if os.path.exists(os.path.join(dst, "Props.tla")) else "EXTENDS MSM, Def_%s" % defname,
            "MCfg == %s" % CFGS[cfg],
            "MApis == {%s}" % ", ".join('"%s"' % a for a in apis),
-           "Track == TLCSet(1, IF l > TLCGet(1) THEN l ELSE TLCGet(1))",
-           "Accepted == PrintT(<<\"maxl\", TLCGet(1), NL>>) /\\ TLCGet(1) = NL + 1",
+           "MDirOps == {%s}" % ", ".join('"%s"' % a for a in dirops),
+           "MDirEvs == %s" % ("Def_%s.events" % defname if direvs is None else "{%s}" % ", ".join('"%s"' % a for a in direvs)),
+           "PInv == %s" % (" /\\ ".join(trace_invs) if trace_invs else "TRUE"),
+           "Track == TLCSet(1, IF l > TLCGet(1) THEN l ELSE TLCGet(1)) /\\ TLCSet(3, IF TLCGet(3) = 0 /\\ ~PInv THEN l ELSE TLCGet(3))",
+           "Accepted == PrintT(<<\"maxl\", TLCGet(1), NL, TLCGet(3)>>) /\\ TLCGet(1) = NL + 1",
            "View == <<%s>>" % ", ".join(view),
            extra_defs, "===="]
     open(os.path.join(dst, name + ".tla"), "w").write("\n".join(mod) + "\n")
     c = ["SPECIFICATION Spec", 'CONSTANT Mode = "%s"' % mode, "CONSTANT Cfg <- MCfg", "CONSTANT Def <- Def_%s" % defname,
-         "CONSTANT MaxCalls = %d" % maxcalls, "CONSTANT Budget = %d" % budget, "CONSTANT NInst = %d" % ninst, "CONSTANT Apis <- MApis",
+         "CONSTANT MaxCalls = %d" % maxcalls, "CONSTANT Budget = %d" % budget, "CONSTANT BudgetPerCall = %s" % ("TRUE" if percall else "FALSE"), "CONSTANT NInst = %d" % ninst, "CONSTANT Apis <- MApis",
+         "CONSTANT DirOps <- MDirOps", "CONSTANT DirEvs <- MDirEvs",
          "CONSTANT defaultInitValue = defaultInitValue", "CHECK_DEADLOCK FALSE"]
+    if constraint: c.append("CONSTRAINT " + constraint)
     if mode == "trace":
         c += ["CONSTRAINT Track", "POSTCONDITION Accepted"]
     else:
@@ -73,9 +78,24 @@ def parse_stats(out):
     st = {}
     m = re.search(r"(\d+) states generated, (\d+) distinct states found", out)
     if m: st["generated"] = int(m.group(1)); st["distinct"] = int(m.group(2))
-    m = re.search(r'<<"maxl", (\d+), (\d+)>>', out)
-    if m: st["maxl"] = int(m.group(1)); st["nl"] = int(m.group(2))
+    m = re.search(r'<<"maxl", (\d+), (\d+), (\d+)>>', out)
+    if m: st["maxl"] = int(m.group(1)); st["nl"] = int(m.group(2)); st["pviol"] = int(m.group(3))
+    m = re.search(r"Invariant (\w+) is violated", out)
+    if m: st["violated"] = m.group(1)
     return st
 
 if __name__ == "__main__":
     print(translate(sys.argv[1]))
+
+def extract_var(out, var):
+    """text of variable `var` in the last state of a TLC error trace"""
+    key = "/\\ %s = " % var
+    i = out.rfind(key)
+    if i < 0: return ""
+    j = out.find("\n/\\ ", i + 1)
+    k = out.find("\n\n", i + 1)
+    ends = [x for x in (j, k) if x > 0]
+    return out[i + len(key): min(ends) if ends else len(out)].strip()
+
+def extract_path(out):
+    return {"path": extract_var(out, "path")[:6000], "obs_tail": extract_var(out, "obs")[-3000:], "lastcall": extract_var(out, "lastcall")}
